@@ -6,11 +6,17 @@ from tools import cluster
 def run(ctx):
     v = vlib.Verdict(ctx)
     mc = cluster.mc_switchover(ctx, which=["MC_Switchover_faults.cfg"] if ctx.quick else ["MC_Switchover_thorough.cfg"])
+    # the decision table of the recovery check (Recovery.tla): the clauses hold on the complete product of observations
+    dm = vlib.tlc_must(ctx, vlib.tlc(ctx, "MC_Recovery", cfg="MC_Recovery.cfg", workers=2, timeout=600), "MC_Recovery")
+    if dm.violations:
+        raise vlib.Inconclusive("Recovery.tla violates its own clauses (model counterexample): %s" % dm.violations[:1])
     rows, fails, r = vlib.rows_check(ctx, "internal/app", "^TestVerifC11$", "RecoveryRows", env={}, timeout=7000,
-                                     shards=12, chunk=4000, par=4)
+                                     shards=12, chunk=4000, par=4, cfg="RecoveryRows.cfg")
     meta = cluster.load_meta(ctx)
     for name, i, row in fails:
         sig = {"kind": row["kind"], "variant": "-".join(row["scn"].split("-")[1:4])}
+        if row["kind"] == "decide":
+            sig = {"kind": "decide", "decision": row["decision"][:40]}
         v.fail(name, sig, "%s (scenario %s)" % ({k: row[k] for k in row if k != "scn"}, row["scn"]),
                {"row": row, "scenario": meta["scenarios"].get(row["scn"]),
                 "how": "VERIF_ONLY=<scenario id> go test -run TestVerifC11 (overlay)"})
